@@ -441,3 +441,31 @@ Proof.
 Qed.
 
 End EndToEnd.
+
+(* ---------- the header form of a regenerated plain section, at the size threshold ---------- *)
+
+(* GenSecHeader on a section without a type-specific header: the 4-byte header with the 24-bit
+   size while 4 + |body| < 0xFFFFFF; from 4 + |body| = 0xFFFFFF on, the 8-byte header: size field
+   FF FF FF, type, 32-bit size 8 + |body| *)
+Lemma gsh_plain_form h body : s_gd h = None -> zlen body + 8 < 4294967296 ->
+  (4 + zlen body < 16777215 ->
+     snd (gen_sec_header h body) = le_enc 3 (4 + zlen body) ++ [s_type h] ++ body) /\
+  (16777215 <= 4 + zlen body ->
+     snd (gen_sec_header h body) = [255; 255; 255] ++ [s_type h] ++ le_enc 4 (8 + zlen body) ++ body).
+Proof.
+  intros Hg Hb. pose proof (zlen_nonneg body) as Hn.
+  unfold gen_sec_header. rewrite Hg. cbn [snd app].
+  replace (zlen body + (4 + 0)) with (4 + zlen body) by lia.
+  rewrite (Z.mod_small (4 + zlen body)) by (unfold U32; lia).
+  split; intros Hs.
+  - replace (16777215 <=? 4 + zlen body) with false by lia.
+    replace (16777215 <=? 4 + zlen body) with false by lia.
+    rewrite write3_small by lia. rewrite <- app_assoc. reflexivity.
+  - replace (16777215 <=? 4 + zlen body) with true by lia.
+    rewrite (Z.mod_small (4 + zlen body + 4)) by (unfold U32; lia).
+    replace (16777215 <=? 4 + zlen body + 4) with true by lia.
+    unfold write3. replace (16777215 <=? 4 + zlen body + 4) with true by lia.
+    replace (4 + zlen body + 4) with (8 + zlen body) by lia.
+    change (le_enc 3 16777215) with [255; 255; 255].
+    rewrite <- ?app_assoc. reflexivity.
+Qed.
